@@ -290,6 +290,14 @@ func authenticateUser(deps ServerDeps, conn net.Conn, tag string, username strin
 		return
 	}
 
+	// An email address has exactly one "@". A username with more than one would be
+	// verified by the auth server as one address while ExtractUsername/GetUserDomain
+	// bind the session to the mailboxes of another, so it is refused here
+	if strings.Count(username, "@") > 1 {
+		deps.SendResponse(conn, fmt.Sprintf("%s NO [AUTHENTICATIONFAILED] Authentication failed", tag))
+		return
+	}
+
 	// Determine the email address to use for authentication
 	var email string
 	if strings.Contains(username, "@") {
